@@ -193,14 +193,20 @@ def main(argv):
         sel = [u for u in units if a.prop in u['props']]
         if a.tier == 'quick':
             sel = [u for u in sel if not u['thorough_only']]
-            if a.prop in ('C01', 'C19'):
-                # the union properties re-run units that other properties already run; the quick tier keeps the ones that finish
-                # in under a minute on the reference box (lib/timings.json, measured), the thorough tier runs all of them
+            if a.prop == 'C19':
+                # the frame property re-runs contract units that other properties already run; its quick tier keeps the ones that finish
+                # within a minute on the reference box (lib/timings.json, measured), the thorough tier runs all of them
                 try:
                     tm = json.load(open(os.path.join(VERIF, 'lib', 'timings.json')))
                 except OSError:
                     tm = {}
-                sel = [u for u in sel if tm.get(u['name'], 0) <= 25 or u['name'] in ('htp_connp_req_data', 'htp_connp_res_data')]
+                sel = [u for u in sel if tm.get(u['name'], 0) <= 60 or u['name'] in ('htp_connp_req_data', 'htp_connp_res_data')]
+    # longest first, so that the slow units do not end up alone at the tail of the run
+    try:
+        _tm = json.load(open(os.path.join(VERIF, 'lib', 'timings.json')))
+    except OSError:
+        _tm = {}
+    sel.sort(key=lambda u: -_tm.get(u['name'], 30))
     if a.only_files:
         touched = set(a.only_files.split(','))
 
